@@ -334,7 +334,7 @@ fn messy_strategy() -> BoxedStrategy<MessyCase> {
         .boxed()
 }
 
-fn messy_samples(c: &MessyCase) -> Vec<Sample> {
+pub fn messy_samples(c: &MessyCase) -> Vec<Sample> {
     let anc = gen::bases_to_seq(&c.anc);
     c.samples
         .iter()
@@ -408,6 +408,14 @@ fn show(c: &Case) -> serde_json::Value {
         Ok(m) => json!({"k": c.k, "threads": c.threads, "ancestor": lossy(&m.ancestor), "sites": m.sites.iter().map(|(p, a)| json!({"pos": p, "alleles": lossy(a)})).collect::<Vec<_>>(), "with_ref": c.with_ref}),
         Err(e) => json!({"rejected": e}),
     }
+}
+
+pub fn case_strategy_pub(with_ref: bool) -> BoxedStrategy<Case> {
+    case_strategy(with_ref)
+}
+
+pub fn messy_strategy_pub() -> BoxedStrategy<MessyCase> {
+    messy_strategy()
 }
 
 fn stages(tier: Tier) -> Vec<Box<dyn Stage>> {
